@@ -2,6 +2,7 @@
 from __future__ import annotations
 
 import ast
+import re
 from typing import List, Optional, Tuple
 
 from sa.formula import Formula, Unrecognised
@@ -116,6 +117,9 @@ def _tree(e: ast.expr):
             return ("cmp", r, "<", l)
         if isinstance(op, ast.GtE):
             return ("cmp", r, "<=", l)
+        if isinstance(op, (ast.Eq, ast.NotEq)):
+            a, b = sorted([l, r])
+            return ("eq", a, isinstance(op, ast.Eq), b)
     if isinstance(e, ast.UnaryOp) and isinstance(e.op, (ast.Invert, ast.Not)):
         return _neg(_tree(e.operand))
     return ("atom", S(e))
@@ -129,6 +133,8 @@ def _neg(t):
     if t[0] == "cmp":
         _, l, op, r = t
         return ("cmp", r, "<=" if op == "<" else "<", l)
+    if t[0] == "eq":
+        return ("eq", t[1], not t[2], t[3])
     return ("not", t)
 
 
@@ -172,8 +178,125 @@ def rule_partition(ctx: Ctx) -> None:
                   sample={"inside": strip_v(S(sel[(True, two_d)]))[:120], "outside": strip_v(S(sel[(False, two_d)]))[:120]})
     # the inside selection is: positive winding count, and z within [zmin, zmax] taken from the area
     t = strip_v(S(sel[(True, False)]))
-    ok = "0<cnt_arr_" in t and "min(area,key=lambdax:x[2])[2]<=pointcloud[:,2]" in t and "pointcloud[:,2]<=max(area,key=lambdax:x[2])[2]" in t
+    ok = ("0<cnt_arr_" in t or "cnt_arr_!=0" in t or "cnt_arr_>0" in t) and "min(area,key=lambdax:x[2])[2]<=pointcloud[:,2]" in t and "pointcloud[:,2]<=max(area,key=lambdax:x[2])[2]" in t
     ctx.check(ok, "C12-partition", "crop_pointcloud", "inside-shape", f"the inside selection is `{t[:200]}`; expected winding count > 0 and zmin <= z <= zmax with zmin/zmax the lowest / highest corner", fi=fi)
+
+
+def _canon_cmp(e: ast.expr, ren) -> Optional[Tuple[str, str, str]]:
+    """x < y / x <= y with renamed operand texts; > and >= are turned around."""
+    if not (isinstance(e, ast.Compare) and len(e.ops) == 1):
+        return None
+    l, r = ren(S(e.left)), ren(S(e.comparators[0]))
+    op = e.ops[0]
+    if isinstance(op, ast.Lt):
+        return ("lt", l, r)
+    if isinstance(op, ast.LtE):
+        return ("le", l, r)
+    if isinstance(op, ast.Gt):
+        return ("lt", r, l)
+    if isinstance(op, ast.GtE):
+        return ("le", r, l)
+    return None
+
+
+def _factors(e: ast.expr) -> List[ast.expr]:
+    if isinstance(e, ast.BinOp) and isinstance(e.op, (ast.Mult, ast.BitAnd)):
+        return _factors(e.left) + _factors(e.right)
+    if isinstance(e, ast.Call) and S(e.func) in ("np.logical_and", "np.bitwise_and") and len(e.args) == 2:
+        return _factors(e.args[0]) + _factors(e.args[1])
+    return [e]
+
+
+def rule_winding(ctx: Ctx) -> None:
+    """The xy crop is the winding-number test: for every polygon edge A -> B an upward crossing of the point's horizontal ray counts +1,
+    a downward crossing -1, both only when the point is left of the edge at its height (half-open in y so that a vertex is counted once)."""
+    fi = ctx.func("common.point.crop_pointcloud")
+    paths = enum_paths(ctx, fi)
+    lps = loops_of(paths)
+    ctx.require(len(lps) == 1, "crop_pointcloud: the edge loop was not found")
+    lp = lps[0]
+    n_txt = "len(area)//2"
+    ctx.check(S(lp.text) in (f"range({n_txt})", "range(num_vertices)"), "C12-winding", "crop_pointcloud", "edges", f"the edge loop iterates `{S(lp.text)}`; expected every vertex of the lower polygon (range(len(area) // 2))", fi=fi)
+    iv = U(lp.node.target)
+    nxt = f"area[({iv}+1)%({n_txt})]"
+
+    def ren(t: str) -> str:
+        t = strip_v(t).replace(nxt, "B").replace(f"area[({iv}+1)%num_vertices]", "B").replace(f"area[{iv}]", "A")
+        return t.replace("pointcloud[:,1]", "Py").replace("pointcloud[:,0]", "Px").replace("A[1]", "Ay").replace("A[0]", "Ax").replace("B[1]", "By").replace("B[0]", "Bx")
+
+    UP = [{("le", "Ay", "Py"), ("lt", "Py", "By")}, {("lt", "Ay", "Py"), ("le", "Py", "By")}]
+    DOWN = [{("lt", "Py", "Ay"), ("le", "By", "Py")}, {("le", "Py", "Ay"), ("lt", "By", "Py")}]
+    init = next((S(e.value) for p in paths for e in p.effects if e.kind == "assign" and strip_v(e.recv) == "cnt_arr_"), S(lp.pre.get("cnt_arr_")) if lp.pre.get("cnt_arr_") is not None else None)
+    ctx.check(init is not None and init.startswith("np.zeros(pointcloud.shape[0]"), "C12-winding", "crop_pointcloud", "count-init", f"the winding count starts as `{init}`; expected one zero per point", fi=fi)
+    # sign of the count: a clockwise polygon winds -1 around its interior.  `0 < count` is "inside" only because an UNSIGNED counter wraps -1 to 255
+    dt = None
+    if init is not None:
+        m = re.search(r"dtype=([\w.]+)", init)
+        dt = m.group(1) if m else None
+    unsigned = dt in ("np.uint8", "np.uint16", "np.uint32", "np.uint64", "numpy.uint8")
+    ins_txt = [strip_v(S(p.retval)) for p in paths if p.exit == ("return",) and p.facts.get("truthy:inside")]
+    ctx.require(bool(ins_txt), "crop_pointcloud: inside selection not found")
+    by_sign = any("0<cnt_arr_" in t or "cnt_arr_>0" in t for t in ins_txt)
+    ctx.check(unsigned or not by_sign, "C12-winding", "crop_pointcloud", "count-sign",
+              f"points are inside when `0 < count` but the counter is {dt or 'float'} (signed): a clockwise polygon (e.g. a box rolled by 180 deg, a clockwise non-detection area) winds -1 around its interior and "
+              "would be classified outside; use `count != 0` or an unsigned counter", fi=fi, expected="unsigned counter, or inside = (count != 0)", found=f"dtype={dt}, inside by sign={by_sign}")
+    rows = 0
+    for bp in lp.body:
+        horiz = next((v for k, v in bp.facts.items() if S(k).startswith("same:area[") and "[1]==area[" in S(k)), None)
+        asg = {e.recv: e.value for e in bp.effects if e.kind == "assign"}
+        mult = {strip_v(e.recv): e for e in bp.effects if e.kind == "aug" and strip_v(e.recv) in ("incremental_flags", "decremental_flags")}
+        cnt = [(S(strip_v(e.recv)), e.name, S(e.value)) for e in bp.effects if e.kind == "aug" and S(strip_v(e.recv)).startswith("cnt_arr_[")]
+        ctx.require("incremental_flags" in asg and "decremental_flags" in asg and len(mult) == 2, "crop_pointcloud: crossing flags of the winding loop not recognised")
+        up = {_canon_cmp(x, ren) for x in _factors(asg["incremental_flags"])}
+        down = {_canon_cmp(x, ren) for x in _factors(asg["decremental_flags"])}
+        conv = next((i for i in (0, 1) if up == UP[i]), None)
+        ctx.check(conv is not None, "C12-winding", "crop_pointcloud", f"upward-crossing:{horiz}",
+                  f"an upward crossing is `{ren(S(asg['incremental_flags']))[:120]}`; expected A.y <= P.y < B.y (half-open, so that a vertex on the ray is counted once)", fi=fi,
+                  expected="(A.y <= P.y) * (B.y > P.y)", found=ren(S(asg["incremental_flags"]))[:160], sample={"crossing": "up"})
+        ctx.check(conv is not None and down == DOWN[conv], "C12-winding", "crop_pointcloud", f"downward-crossing:{horiz}",
+                  f"a downward crossing is `{ren(S(asg['decremental_flags']))[:120]}`; expected the mirror image B.y <= P.y < A.y of the upward test", fi=fi,
+                  expected="(A.y > P.y) * (B.y <= P.y)", found=ren(S(asg["decremental_flags"]))[:160])
+        for nm in ("incremental_flags", "decremental_flags"):
+            e = mult[nm]
+            c = _canon_cmp(e.value, ren) if e.name in ("Mult", "BitAnd") else None
+            if horiz is False:
+                ok = False
+                if c is not None and c[0] in ("lt", "le") and c[1] == "Px":
+                    try:
+                        F = Formula()
+                        ok = F.parse(ast.parse(c[2], mode="eval").body).equals(F.parse_text("Ax + (Py - Ay) / (By - Ay) * (Bx - Ax)"))
+                    except (Unrecognised, SyntaxError):
+                        ok = False
+                ctx.check(ok, "C12-winding", "crop_pointcloud", f"left-of-edge:{nm[:3]}",
+                          f"a crossing counts when `{ren(S(e.value))[:140]}` ({e.name}); expected P.x < A.x + (P.y - A.y)/(B.y - A.y) * (B.x - A.x): the point is left of the edge at its own height", fi=fi,
+                          expected="Px < Ax + (Py-Ay)/(By-Ay)*(Bx-Ax)", found=ren(S(e.value))[:200])
+            else:
+                ctx.check(e.name in ("Mult", "BitAnd") and re.search(r"(?<!/)/(?!/)", S(e.value)) is None, "C12-winding", "crop_pointcloud", f"horizontal-edge:{nm[:3]}", "a horizontal edge is divided by its zero height", fi=fi)
+        want = [("cnt_arr_[incremental_flags]", "Add", "1"), ("cnt_arr_[decremental_flags]", "Sub", "1")]
+        ctx.check(sorted(cnt) == sorted(want), "C12-winding", "crop_pointcloud", f"count:{horiz}", f"the winding count is updated by {cnt}; expected +1 for upward and -1 for downward crossings", fi=fi, expected=str(want), found=str(cnt))
+        rows += 1
+    ctx.require(rows == 2, f"crop_pointcloud: {rows} body paths of the edge loop (expected horizontal / non-horizontal edge)")
+    # defaults: a crop keeps the INSIDE of the unscaled box unless told otherwise
+    def _defaults(f2):
+        a = f2.node.args
+        return {x.arg: S(d) for x, d in zip(a.args[len(a.args) - len(a.defaults):], a.defaults)}
+
+    d1 = _defaults(fi)
+    ctx.check(d1.get("inside") == "True", "C12-winding", "crop_pointcloud", "default-inside", f"crop_pointcloud(inside=...) defaults to {d1.get('inside')}; the default crop keeps the inside", fi=fi)
+    fo = ctx.func("common.object.DynamicObject.crop_pointcloud")
+    d2 = _defaults(fo)
+    ctx.check(d2.get("inside") == "True" and d2.get("bbox_scale") in ("1.0", "1"), "C12-winding", "DynamicObject.crop_pointcloud", "defaults",
+              f"DynamicObject.crop_pointcloud defaults are {d2}; expected bbox_scale=1.0, inside=True", fi=fo)
+    # guards: a 3D polygon has an even number (>= 6) of corners; the cloud is (N, k >= 2)
+    for p in paths:
+        if p.exit and p.exit[0] == "raise":
+            continue
+        f = {strip_v(S(k)): v for k, v in p.facts.items()}
+        bad = [k for k, v in f.items() if (k in ("cmp:pointcloud.shape[1]<2", "cmp:len(area)//2<3") and v) or (k in ("eq:pointcloud.ndim==2", "eq:len(area)%2==0") and not v)]
+        ctx.check(not bad, "C12-winding", "crop_pointcloud", "input-guards", f"the crop proceeds although {bad}", fi=fi)
+        need = {"eq:pointcloud.ndim==2", "cmp:pointcloud.shape[1]<2", "cmp:len(area)//2<3", "eq:len(area)%2==0"}
+        ctx.check(need <= set(f), "C12-winding", "crop_pointcloud", "input-guards-present", f"a malformed cloud / polygon is not rejected: tests seen {sorted(k for k in f if k in need)}", fi=fi)
+        break
 
 
 def rule_fold(ctx: Ctx) -> None:
@@ -337,6 +460,7 @@ def run(ctx: Ctx) -> None:
     ctx.run(_G.rule_arity, ("perception_eval.evaluation.sensing", "perception_eval.manager.sensing_evaluation_manager", "perception_eval.common.point"), "R-ARITY", 5)
     ctx.run(rule_classify)
     ctx.run(rule_partition)
+    ctx.run(rule_winding)
     ctx.run(rule_fold)
     ctx.run(rule_scale)
     ctx.run(rule_box)
